@@ -34,6 +34,12 @@ KINDS_OF = {"sim-api": API_KINDS, "cbc-wrapper": CBC_KINDS, "highs-wrapper": HIG
             "real-cbc": REAL_KINDS, "none": ["ok"]}
 
 
+def preload(tier):
+    solve_engine.common()
+    for name in CORPUS:
+        solve_engine.corpus_mapping(name)
+
+
 def catalogue(cfg):
     """Every (backend, fault) of the catalogue; cfg supplies the seeded free parameters (tie, mask)."""
     out = []
